@@ -1,0 +1,121 @@
+//go:build verif
+
+package corebgp
+
+import (
+	"errors"
+	"fmt"
+	"sync"
+	"time"
+)
+
+// VerifEvent is one recorded hook event. Seq is a process-wide sequence number.
+type VerifEvent struct {
+	Seq  uint64
+	At   time.Time
+	Kind string
+	Args []string
+}
+
+var verifRec struct {
+	mu     sync.Mutex
+	seq    uint64
+	events []VerifEvent
+	points map[string]chan struct{}
+	hits   map[string]int
+}
+
+func verifFmt(a any) string {
+	switch x := a.(type) {
+	case error:
+		return verifErrClass(x)
+	case fsmState:
+		return x.String()
+	case *fsm:
+		return fmt.Sprintf("%p", x)
+	case *peer:
+		return x.config.RemoteAddress.String()
+	}
+	return fmt.Sprint(a)
+}
+
+// verifErrClass: how the peer manager will see the error (errors.As for
+// *notificationError), without message strings.
+func verifErrClass(err error) string {
+	if err == nil {
+		return "nil"
+	}
+	var nerr *notificationError
+	if errors.As(err, &nerr) {
+		dir := "in"
+		if nerr.out {
+			dir = "out"
+		}
+		return fmt.Sprintf("notif.%s.%d.%d", dir, nerr.notification.Code, nerr.notification.Subcode)
+	}
+	return "other"
+}
+
+func verifEvent(kind string, args ...any) {
+	s := make([]string, len(args))
+	for i, a := range args {
+		s[i] = verifFmt(a)
+	}
+	verifRec.mu.Lock()
+	verifRec.seq++
+	verifRec.events = append(verifRec.events, VerifEvent{Seq: verifRec.seq, At: time.Now(), Kind: kind, Args: s})
+	verifRec.mu.Unlock()
+}
+
+// verifPoint blocks while the named schedule point is armed.
+func verifPoint(name string) {
+	verifRec.mu.Lock()
+	ch := verifRec.points[name]
+	if verifRec.hits == nil {
+		verifRec.hits = map[string]int{}
+	}
+	verifRec.hits[name]++
+	verifRec.mu.Unlock()
+	if ch != nil {
+		verifEvent("point.hold", name)
+		<-ch
+		verifEvent("point.release", name)
+	}
+}
+
+// VerifArmPoint makes every goroutine reaching the named point block until the returned
+// release function is called.
+func VerifArmPoint(name string) (release func()) {
+	ch := make(chan struct{})
+	verifRec.mu.Lock()
+	if verifRec.points == nil {
+		verifRec.points = map[string]chan struct{}{}
+	}
+	verifRec.points[name] = ch
+	verifRec.mu.Unlock()
+	var once sync.Once
+	return func() {
+		once.Do(func() {
+			verifRec.mu.Lock()
+			delete(verifRec.points, name)
+			verifRec.mu.Unlock()
+			close(ch)
+		})
+	}
+}
+
+// VerifPointHits reports how often a point was reached.
+func VerifPointHits(name string) int {
+	verifRec.mu.Lock()
+	defer verifRec.mu.Unlock()
+	return verifRec.hits[name]
+}
+
+// VerifDrainEvents returns and clears the recorded events.
+func VerifDrainEvents() []VerifEvent {
+	verifRec.mu.Lock()
+	defer verifRec.mu.Unlock()
+	ev := verifRec.events
+	verifRec.events = nil
+	return ev
+}
